@@ -307,13 +307,15 @@ def run_in_child(fn, timeout=60.0):
             pass
         os.waitpid(pid, 0)
         return 'timeout', 'child exceeded %.0fs wall clock' % timeout
-    os.waitpid(pid, 0)
+    _, wstatus = os.waitpid(pid, 0)
     data = b''.join(chunks)
     if data[:2] == b'OK':
         return 'ok', json.loads(data[2:].decode())
     if data[:2] == b'ER':
         return 'error', data[2:].decode()
-    return 'error', 'child died without output (%d bytes)' % len(data)
+    how = ('killed by signal %d' % os.WTERMSIG(wstatus) if os.WIFSIGNALED(wstatus)
+           else 'exit status %d' % os.WEXITSTATUS(wstatus) if os.WIFEXITED(wstatus) else 'status %r' % wstatus)
+    return 'error', 'child died without output (%d bytes, %s)' % (len(data), how)
 
 
 # ---------------------------------------------------------------------------
